@@ -633,6 +633,43 @@ func init() {
 	}
 }
 
+// runDictBig: a term present in every document of more than 65536 documents (its postings bitmap
+// has a completely full 16-bit container): dictionary counts of the built and the re-opened segment.
+func runDictBig(w spec.WideSpec) *Violation {
+	b := &spec.BatchSpec{Wide: &w}
+	want := spec.Expect(b)
+	for _, prov := range []int{0, 1} {
+		seg, closeFn, v := provenanceSegment("C08", b, prov, 0)
+		if v != nil {
+			return v
+		}
+		v = dictAgainstModel("C08", seg, want, fmt.Sprintf("provenance %d, %d documents", prov, w.N))
+		closeFn()
+		if v != nil {
+			return v
+		}
+	}
+	return nil
+}
+
+func init() {
+	registry["C08/dictionary-big"] = func(raw json.RawMessage) *Violation {
+		var w spec.WideSpec
+		if err := json.Unmarshal(raw, &w); err != nil {
+			return violation("C08", "replay/bad-case-file", "%v", err)
+		}
+		return runDictBig(w)
+	}
+}
+
+func TestC08Big(t *testing.T) {
+	col := stats.New("C08", "dictionary-big")
+	defer col.Write()
+	w := spec.WideSpec{N: 65536 + 8, Period: 2}
+	col.CaseHash(stats.HashJSON(w), true, []string{"term-in-every-document-of-a-full-65536-block"}, func() any { return sampleOf(w) })
+	reportBig(t, col, "C08", "dictionary-big", w, runDictBig(w))
+}
+
 func TestC08Fixed(t *testing.T) {
 	col := stats.New("C08", "dictionary-remerge")
 	defer col.Write()
